@@ -125,6 +125,19 @@ func (e *Env) conformingURL(r *rand.Rand) (string, bool) {
 			opts = append(opts, s)
 		}
 	}
+	// schemes only a scheme pattern admits ("if they match a regexp": anywhere in the scheme, unless the
+	// pattern is anchored)
+	for _, cand := range []string{"ftp", "sftp", "ftps", "tel", "ws", "wss", "x-app", "web+https"} {
+		if _, named := sp.Schemes[cand]; named {
+			continue
+		}
+		for _, pat := range sp.SchemePats {
+			if gen.Re(pat).MatchString(cand) {
+				opts = append(opts, cand)
+				break
+			}
+		}
+	}
 	sort.Strings(opts)
 	for try := 0; try < 8 && len(opts) > 0; try++ {
 		s := opts[r.Intn(len(opts))]
